@@ -542,6 +542,37 @@ example :
       = some ([(0, 0), (0, 1)], [((0, 0), 5), ((0, 1), 6)]) := by
   decide
 
+/-- **split_refused_unchanged**: a split request that is refused by the up-front validation (no open
+database, empty selection, a selected step without an unlabelled snapshot, a step selected twice)
+leaves the store exactly as it was -/
+theorem split_refused_unchanged (s : Store) (keep : List (Nat × Nat)) (h : splitValid s keep = false) :
+    splitOp s keep = (s, false) := by
+  unfold splitOp
+  simp [h]
+
+/-- what the validation means -/
+theorem splitValid_iff (s : Store) (keep : List (Nat × Nat)) :
+    splitValid s keep = true ↔
+      s.isOpen = true ∧ keep ≠ [] ∧ (∀ cn ∈ keep, hasKey s ⟨cn.1, cn.2, []⟩ = true) ∧ keep.Nodup := by
+  unfold splitValid
+  simp [List.isEmpty_iff, and_assoc]
+
+/-- a split that goes through was valid, and an invalid one never changes anything -/
+theorem split_some_valid (s s' : Store) (keep : List (Nat × Nat)) (h : split s keep = some s') :
+    splitValid s keep = true ∧ splitOp s keep = (s', true) := by
+  have hv' : splitValid s keep = true := by
+    by_contra hc
+    have hf : splitValid s keep = false := by simpa using hc
+    unfold split at h
+    simp [hf] at h
+  refine ⟨hv', ?_⟩
+  unfold splitOp
+  simp [hv', h]
+
+example : splitOp f13Store [(0, 5)] = (f13Store, false) ∧ splitOp f13Store [] = (f13Store, false)
+    ∧ splitOp f13Store [(0, 0), (0, 0)] = (f13Store, false) ∧ (splitOp f13Store [(0, 2), (1, 0)]).2 = true := by
+  decide
+
 /-! ## The file an aborted run leaves behind -/
 
 /-- the snapshot a hook call of the database interface writes, if it writes one -/
